@@ -43,7 +43,7 @@ def self_consistent(msg, ctx=None):
     return True
 
 
-def random_case(ctx, mtv=None, pclose=0.8, **env):
+def random_case(ctx, mtv=None, pclose=0.8, narrow_strings=0.0, **env):
     """Returns (msg, mtv) or None when R has no opinion (Unsupported)."""
     rng = ctx.rng
     mtv = mtv if mtv is not None else rng.choice(MTVS)
@@ -52,7 +52,7 @@ def random_case(ctx, mtv=None, pclose=0.8, **env):
     ed, sec2, comp, nsub = envelope(rng, **env)
     B, D = tables(mtv)
     try:
-        msg = R.build_message(ids, B, D, R.Policy(rng), nsub, comp, ed,
+        msg = R.build_message(ids, B, D, R.Policy(rng, narrow_strings=narrow_strings), nsub, comp, ed,
                               dict(master_table_version=mtv), sec2)
     except R.Unsupported:
         ctx.count('gen_unsupported')
